@@ -58,6 +58,11 @@ void *realloc(void *ptr, size_t len)
     if (len % __WORDSIZE != 0)
         len += (__WORDSIZE - (len % __WORDSIZE));
 
+    /* same minimum chunk size as malloc(): a freed chunk must be able to
+     * hold a freelist entry */
+    if (len < sizeof(struct __freelist) - sizeof(size_t))
+        len = sizeof(struct __freelist) - sizeof(size_t);
+
     struct __freelist *fp1, *fp2, *fp3, *ofp3;
     char *cp, *cp1;
     void *memp;
